@@ -7,6 +7,7 @@ Import ListNotations.
 Section STEP.
 Variable V : Type.
 Variable veq : V -> V -> bool.
+Variable vhash : V -> list N.
 
 Lemma upd_nth_length : forall (A : Type) (l : list A) i x, length (upd_nth i x l) = length l.
 Proof. induction l as [|y l IH]; intros [|i] x; cbn; auto. Qed.
@@ -14,10 +15,10 @@ Proof. induction l as [|y l IH]; intros [|i] x; cbn; auto. Qed.
 (** the field that completes the tuple: duplicate check against the stored tuples, then the tuple is stored *)
 Lemma vs_add_completes : forall f v (vs : vstore V),
   nth_error (vs_vals V vs) f = Some None -> S (vs_count V vs) = length (vs_vals V vs) ->
-  vs_add V veq f v vs =
+  vs_add V veq vhash f v vs =
   Some (mkVS V (vs_ic V vs) (upd_nth f (Some v) (vs_vals V vs)) (length (vs_vals V vs))
-             (put_tuple V veq (upd_nth f (Some v) (vs_vals V vs)) (vs_tuples V vs)),
-        contains V veq (vs_tuples V vs) (upd_nth f (Some v) (vs_vals V vs))).
+             (put_tupleH V veq vhash (upd_nth f (Some v) (vs_vals V vs)) (vs_tuples V vs)),
+        containsH V veq vhash (vs_tuples V vs) (upd_nth f (Some v) (vs_vals V vs))).
 Proof.
   intros f v vs H1 H2. unfold vs_add. rewrite H1. rewrite upd_nth_length, H2, Nat.eqb_refl. reflexivity.
 Qed.
@@ -25,7 +26,7 @@ Qed.
 (** any earlier field: only fValues / fValuesCount change, nothing is reported *)
 Lemma vs_add_partial : forall f v (vs : vstore V),
   nth_error (vs_vals V vs) f = Some None -> S (vs_count V vs) < length (vs_vals V vs) ->
-  vs_add V veq f v vs =
+  vs_add V veq vhash f v vs =
   Some (mkVS V (vs_ic V vs) (upd_nth f (Some v) (vs_vals V vs)) (S (vs_count V vs)) (vs_tuples V vs), false).
 Proof.
   intros f v vs H1 H2. unfold vs_add. rewrite H1. rewrite upd_nth_length.
